@@ -11,6 +11,7 @@ import (
 	"time"
 
 	"verif/rex"
+	"verif/smt"
 	"verif/symgo"
 )
 
@@ -19,13 +20,14 @@ func runStrScript(solver, script string, timeoutS int) (string, string) {
 	var cmd *exec.Cmd
 	switch solver {
 	case "cvc5":
-		cmd = exec.Command("cvc5", "--lang=smt2", "--produce-models", "--strings-exp", fmt.Sprintf("--tlimit=%d", timeoutS*1000))
+		cmd = exec.Command("cvc5", "--lang=smt2", "--produce-models", "--strings-exp")
 		script = "(set-logic QF_SLIA)\n" + script
 	default:
-		cmd = exec.Command(solver, "-in", fmt.Sprintf("-T:%d", timeoutS))
+		cmd = exec.Command(solver, "-in")
 	}
 	cmd.Stdin = strings.NewReader(script)
-	out, _ := cmd.CombinedOutput()
+	// the limit is CPU time of the solver process (a shared machine does not change the verdict)
+	out := smt.RunWithCPULimit(cmd, time.Duration(timeoutS)*time.Second)
 	txt := strings.TrimSpace(string(out))
 	lines := strings.SplitN(txt, "\n", 2)
 	if lines[0] == "unsat" {
@@ -149,7 +151,7 @@ func C08(tier string) int {
 	// pairwise disjointness of the languages
 	type pairRes struct {
 		a, b, res, witness string
-		secs              float64
+		secs               float64
 	}
 	var pairs []pairRes
 	for i := 0; i < len(pats); i++ {
@@ -194,7 +196,7 @@ func C08(tier string) int {
 			"(b) round trip is decided for types bin, hex (widths multiple of 8, the only ones the hex notation denotes) and unsigned, per (width, number of significant bits); decimal formatting/parsing is exact digit arithmetic up to 16 significant bits, wider decimal values are outside; float16/32, fixed point, FloPoCo and linear quantiser round trips are outside (floating point); Signed has no export",
 			"regexp calls on symbolic strings use the class-uniform model (real engine on a representative when the pattern cannot distinguish the concretisations, checked by the solver) or an exact NFA simulation",
 		},
-		Rule: "(a) one obligation per unordered pair of registered patterns (language intersection empty), all pairs; (b) one obligation per assert site per (type, width, significant bits); distinct by pair / by (function,args,tag,position)",
+		Rule:         "(a) one obligation per unordered pair of registered patterns (language intersection empty), all pairs; (b) one obligation per assert site per (type, width, significant bits); distinct by pair / by (function,args,tag,position)",
 		ViolationKey: func(o *Outcome, ob *OblResult) string { return o.Config.Name + ";" + ob.Kind + ":" + ob.Tag },
 		MaxReplays:   10,
 	}
